@@ -1,9 +1,134 @@
 (* C01 - World queries always agree on who owns which component.
-   Statement file (theorems are added below once QProofs.v is complete). *)
-From Coq Require Import ZArith List Bool.
-From Desper Require Import World.QLib World.QHier World.QModel.
+   Statement file: theorems only, each closed by [exact]. *)
+From Coq Require Import ZArith List Bool Permutation.
+From Desper Require Import World.QLib World.QHier World.QHierProofs World.QModel
+                           World.QProofs World.QReadings.
 Import ListNotations.
 Open Scope Z_scope.
 
-Example C01_placeholder_model_compiles : accepts {| c_H := []; c_trace := [] |} = true.
+(* For EVERY class hierarchy (any DAG in creation order), EVERY finite trace of
+   World operations (create with automatic or explicit ids, add / replace,
+   remove, immediate and deferred delete, process, clear, enable/disable,
+   processors) in the input domain [wf_b] and EVERY prefix of it: if the
+   observations are those of the model of desper/logic/world.py
+   ([accepts]: the two tables _entities / _components, _dead_entities, the id
+   generator and the six subclass walks, statement by statement), then every
+   query observed after every operation tells the story of the history
+   summary [spec] (attached components, entities awaiting deletion):
+   get / get_component / get_components / has_component / entities /
+   entity_exists agree with it, and an automatic id never names an entity
+   that owns components.  [holds01 c] is [spec_run ... sel_all ... = true]:
+   the specification machine runs over the whole trace and checks the
+   queries after every entry, i.e. after every prefix.  No bound on the
+   length of the trace, the number of entities, components or classes. *)
+Theorem C01_world_queries_agree :
+  forall c : C01_case, wf_b c = true -> known_b c = false -> accepts c = true -> holds01 c.
+Proof. exact accepts_holds01. Qed.
+Print Assumptions C01_world_queries_agree.
+
+(* After every prefix of such a trace the history summary exists and is a
+   functional attachment relation: an instance sits in at most one slot, a
+   slot (entity, exact type) holds at most one component, entities awaiting
+   deletion own components. *)
+Theorem C01_every_prefix_has_a_story :
+  forall (c : C01_case) p rest,
+    wf_b c = true -> accepts c = true -> c_trace c = p ++ rest ->
+    exists t, spec_after (c_H c) spec_init p = Some t /\ story t.
+Proof. exact every_prefix_story. Qed.
+Print Assumptions C01_every_prefix_has_a_story.
+
+(* What the clauses checked by [holds01] say on raw observations. *)
+
+(* get(T): exactly one (entity, component) pair for every attached component
+   whose type is T or a direct or indirect subclass of T *)
+Theorem C01_get_lists_each_matching_component_once :
+  forall H, hier_wf H -> forall t, story t -> forall T r,
+    spec_query H t (QGet T r) = true ->
+    NoDup r /\ forall e c, In (e, c) r <-> exists u, In (e, u, c) (att t) /\ sub H u T.
+Proof. exact reading_get. Qed.
+
+Theorem C01_get_components_lists_the_components_of_the_entity :
+  forall H t, story t -> forall e r,
+    spec_query H t (QGetComponents e r) = true ->
+    NoDup r /\ forall c, In c r <-> exists u, In (e, u, c) (att t).
+Proof. exact reading_get_components. Qed.
+
+Theorem C01_has_component_iff_a_subtype_is_attached :
+  forall H, hier_wf H -> forall t e T r,
+    spec_query H t (QHas e T r) = true ->
+    (r = true <-> exists u c, In (e, u, c) (att t) /\ sub H u T).
+Proof. exact reading_has_component. Qed.
+
+Theorem C01_get_component_returns_an_attached_subtype_exact_first :
+  forall H, hier_wf H -> forall t e T r,
+    spec_query H t (QGetComponent e T r) = true ->
+    match r with
+    | None => forall u c, In (e, u, c) (att t) -> ~ sub H u T
+    | Some c => (exists u, In (e, u, c) (att t) /\ sub H u T) /\
+                (forall c', In (e, T, c') (att t) -> c' = c)
+    end.
+Proof. exact reading_get_component. Qed.
+
+Theorem C01_entities_are_the_owners_not_awaiting_deletion :
+  forall H t r,
+    spec_query H t (QEntities r) = true ->
+    NoDup r /\ forall e, In e r <-> (exists u c, In (e, u, c) (att t)) /\ ~ In e (pend t).
+Proof. exact reading_entities. Qed.
+
+Theorem C01_entity_exists_is_membership :
+  forall H t e r,
+    spec_query H t (QExists e r) = true ->
+    (r = true <-> (exists u c, In (e, u, c) (att t)) /\ ~ In e (pend t)).
+Proof. exact reading_entity_exists. Qed.
+
+Theorem C01_automatic_id_owns_nothing :
+  forall H t cs rid t',
+    spec_step H t (OCreate None cs) (RId rid) = Some t' ->
+    forall u c, ~ In (rid, u, c) (att t).
+Proof. exact reading_auto_id. Qed.
+
+(* the loops of the model never stop for lack of fuel *)
+Theorem C01_id_draw_terminates :
+  forall s, draw_id (S (length (ents s))) (next_id s) (ents s) <> None.
+Proof. exact draw_id_fuel. Qed.
+
+(* ---- non-vacuity ------------------------------------------------------------- *)
+(* classes A, B(A), C(A), D(B, C) *)
+Definition ex_H : hier := [[]; [0%nat]; [0%nat]; [1%nat; 2%nat]].
+Definition ex_ok : C01_case := {| c_H := ex_H; c_trace := [
+  (OCreate None [(3%nat, 10)], RId 1,
+     [QGet 0%nat [(1, 10)]; QHas 1 1%nat true; QGetComponent 1 2%nat (Some 10); QEntities [1]]);
+  (OAdd 1 1%nat 11, RUnit,
+     [QGet 0%nat [(1, 11); (1, 10)]; QGetComponents 1 [11; 10]; QGetComponent 1 0%nat (Some 11)]);
+  (OAdd 1 1%nat 14, RUnit, [QGet 1%nat [(1, 10); (1, 14)]; QGetComponents 1 [10; 14]]);
+  (OCreate (Some 2) [(0%nat, 12)], RId 2, [QGet 0%nat [(2, 12); (1, 14); (1, 10)]]);
+  (OCreate None [(0%nat, 13)], RId 3, [QEntities [1; 2; 3]]);
+  (ODelete 1 false, RUnit, [QEntities [3; 2]; QExists 1 false; QGetComponents 1 [10; 14]]);
+  (ORemove 1 0%nat, RObj (Some 10), [QGetComponents 1 [14]]);
+  (OProcess, RUnit, [QGet 0%nat [(2, 12); (3, 13)]; QGetComponents 1 []; QExists 1 false]);
+  (OClear, RUnit, [QEntities []; QGet 0%nat []]);
+  (OCreate None [], RId 1, [QEntities []])
+  ] |}.
+Example C01_nonvacuous : wf_b ex_ok = true /\ known_b ex_ok = false /\ accepts ex_ok = true.
+Proof. vm_compute. auto. Qed.
+
+(* D1 (repaired by f0383e7): after a replacement get(A) forgot the entity *)
+Example C01_replacement_forgotten_by_get_rejected :
+  holds01_b {| c_H := [[]]; c_trace := [
+    (OCreate None [(0%nat, 10)], RId 1, []);
+    (OAdd 1 0%nat 11, RUnit, [QGetComponent 1 0%nat (Some 11); QGet 0%nat []]) ] |} = false.
+Proof. vm_compute. reflexivity. Qed.
+
+(* D2 (repaired by c5a2257): an automatic id naming an existing entity *)
+Example C01_automatic_id_of_existing_entity_rejected :
+  holds01_b {| c_H := [[]; []]; c_trace := [
+    (OCreate (Some 1) [(0%nat, 10)], RId 1, []);
+    (OCreate None [(1%nat, 11)], RId 1, []) ] |} = false.
+Proof. vm_compute. reflexivity. Qed.
+
+(* entity_exists ignoring the pending deletion *)
+Example C01_pending_entity_reported_existing_rejected :
+  holds01_b {| c_H := [[]]; c_trace := [
+    (OCreate None [(0%nat, 10)], RId 1, []);
+    (ODelete 1 false, RUnit, [QExists 1 true]) ] |} = false.
 Proof. vm_compute. reflexivity. Qed.
